@@ -29,6 +29,17 @@ func VerifyEventAuthChain(ctx context.Context, eventToVerify PDU, provideEvents 
 	eventsToVerify := []PDU{evv}
 	var curr PDU
 
+	// checkAllowedByAuthEvents asks the provider again, one event at a time, for auth events
+	// that a batch request did not return. Whatever it obtains that way ends up in the lookup
+	// table just like the events fetched below, so it has to be verified just like them.
+	fetchAndVerify := func(roomVer RoomVersion, eventIDs []string) ([]PDU, error) {
+		events, err := provideEvents(roomVer, eventIDs)
+		if err == nil {
+			eventsToVerify = append(eventsToVerify, events...)
+		}
+		return events, err
+	}
+
 	for len(eventsToVerify) > 0 {
 		// pop the top of the stack
 		// A stack works best here as it means we do depth-first verification which reduces the
@@ -56,7 +67,7 @@ func VerifyEventAuthChain(ctx context.Context, eventToVerify PDU, provideEvents 
 			eventsToVerify = append(eventsToVerify, newEvents...) // verify these events too
 		}
 		// verify the event
-		if err := checkAllowedByAuthEvents(curr, eventsByID, provideEvents, userIDForSender); err != nil {
+		if err := checkAllowedByAuthEvents(curr, eventsByID, fetchAndVerify, userIDForSender); err != nil {
 			return fmt.Errorf("gomatrixserverlib: VerifyEventAuthChain %v failed auth check: %w", curr.EventID(), err)
 		}
 		// add to the verified list
